@@ -94,8 +94,25 @@ def _early_exit_stores(prog, fn):
 def growth(rep, prog):
     """update_target_volume(dt): the value the function leaves in target_volume_, as a symbolic expression, must be
     max(target_volume_ + dt*growth_rate_, min_vol_) - whatever the statement forms (+=, clamping if, std::max, locals)."""
-    fn = prog.fn("cell::update_target_volume")
-    ev = _final_store(prog, fn)
+    fn = prog.fn("cell::update_target_volume", required=False)
+    if fn is None:
+        # the helper was merged into its caller: the growth law is decided where target_volume_ is advanced now
+        cands = [f for f in prog.repo_functions() if f.get("cls") == "cell" and isinstance(f.get("body"), dict) and f["name"] not in ("cell",) and f.get("params")
+                 and any(x.get("k") in ("CompoundAssignOperator", "BinaryOperator") and x.get("op") in ("+=", "=") and render(x["c"][0]).replace("this->", "") == "target_volume_"
+                         and any(y.get("k") == "MemberExpr" and (y.get("ref") or {}).get("name") == "growth_rate_" for y in walk(x["c"][1])) for x in walk(f["body"]))]
+        if len(cands) != 1:
+            raise AnalysisBroken("anchor function cell::update_target_volume not found and the growth of target_volume_ is not in exactly one other cell method (%d)" % len(cands))
+        fn = cands[0]
+        rep.note("C04.growth-law: cell::update_target_volume no longer exists; the law is decided in %s, where target_volume_ is advanced" % fn["qn"])
+        # only the statements that write target_volume_ (the increment and its floor), on a fresh state
+        ev = S.SymEval(prog, fn)
+        for st_ in fn["body"].get("c", []):
+            if any(x.get("k") in ("CompoundAssignOperator", "BinaryOperator") and (x.get("op") == "=" or x.get("k") == "CompoundAssignOperator") and render(x["c"][0]).replace("this->", "") == "target_volume_" for x in walk(st_)):
+                ev.exec_tolerant(st_)
+        merged = True
+    else:
+        merged = False
+        ev = _final_store(prog, fn)
     vt = ev.store.get("this.target_volume_")
     dt = sp.Symbol(fn["params"][0]["name"], real=True)
     V0, g, mv = ev.sym("this.target_volume_"), ev.sym("this.growth_rate_"), ev.sym("this.cell_type_.min_vol_")
@@ -114,7 +131,7 @@ def growth(rep, prog):
     else:
         rep.violation("C04.growth-law", prog, fn, None, "target volume increment is not dt*growth_rate_", "update_target_volume sets target_volume_ to %s, expected target_volume_ + time_step*growth_rate_ (then clamped below by min_vol_)" % re.sub(r"this\.|cell_type_\.", "", str(v)))
     early = []
-    for ifs, ev2 in _early_exit_stores(prog, fn):
+    for ifs, ev2 in ([] if merged else _early_exit_stores(prog, fn)):
         w = ev2.store.get("this.target_volume_")
         w = sp.sympify(w) if w is not None else V0
         if not (isinstance(w, sp.Max) and any(sp.simplify(a - mv) == 0 for a in w.args)):
@@ -184,6 +201,8 @@ def order(rep, prog):
                 seq.append((render(e["c"][0]) + "=" + r["callee"].split("::")[1], e))
         elif is_call(e) and e.get("callee", "").startswith("cell::"):
             seq.append((e["callee"].split("::")[1], e))
+        elif e.get("k") == "CompoundAssignOperator" and render(e["c"][0]).replace("this->", "") == "target_volume_" and not any(n_ == "update_target_volume" for n_, _ in seq):
+            seq.append(("update_target_volume", e))      # the helper's body merged into this function
     names = [n for n, _ in seq]
     want = ["update_all_face_normals_and_areas", "area_=compute_area", "volume_=compute_volume", "update_target_volume", "update_pressure", "apply_pressure_on_surface"]
     pos = [names.index(w) if w in names else -1 for w in want]
@@ -197,7 +216,7 @@ def order(rep, prog):
                       "apply_internal_forces must refresh face geometry, area_, volume_ = compute_volume(), then the target volume, then the pressure, and only then apply the pressure forces; found: %s" % " -> ".join(names))
     # the time step handed to update_target_volume is the one of apply_internal_forces
     for n, e in seq:
-        if n == "update_target_volume":
+        if n == "update_target_volume" and is_call(e):
             from ..model import expand
             a = strip(expand(fn, call_args(e)[0]))
             while a.get("k") == "ParenExpr" and a.get("c"):
